@@ -132,19 +132,22 @@ func (c *TermCtx) preInstantiate(assumptions []*Term, goal *Term, rounds, maxPer
 // preInstantiateOpt: with goalOnly the ground terms that seed the trigger matching are those of
 // the goal (and of the instances derived from it) only: a small, goal-directed instance set.
 func (c *TermCtx) preInstantiateOpt(assumptions []*Term, goal *Term, rounds, maxPerQ int, goalOnly bool) []*Term {
-	var sites []qsite
+	var sites, seedOnly []qsite
 	for _, a := range assumptions {
 		var qs []*Term
 		positiveQuantifiers(a, &qs)
 		for _, q := range qs {
 			pats := c.choosePatterns(q)
 			if len(pats) == 0 {
+				// no usable trigger (the bound variable only occurs under div/mod, ...): still a
+				// candidate for skolem seeding below
+				seedOnly = append(seedOnly, qsite{top: a, q: q})
 				continue
 			}
 			sites = append(sites, qsite{top: a, q: q, pats: pats})
 		}
 	}
-	if len(sites) == 0 {
+	if len(sites) == 0 && len(seedOnly) == 0 {
 		return nil
 	}
 	seen := map[int]bool{}
@@ -184,7 +187,7 @@ func (c *TermCtx) preInstantiateOpt(assumptions []*Term, goal *Term, rounds, max
 		}
 		walkSk(goal)
 		var seeded []*Term
-		for _, s := range sites {
+		for _, s := range append(append([]qsite{}, sites...), seedOnly...) {
 			if len(s.q.BVars) != 1 {
 				continue
 			}
@@ -208,6 +211,9 @@ func (c *TermCtx) preInstantiateOpt(assumptions []*Term, goal *Term, rounds, max
 				}
 				seeded = append(seeded, full)
 			}
+		}
+		if os.Getenv("GOVC_DEBUG") == "4" {
+			fmt.Fprintf(os.Stderr, "seeding: %d skolems, %d sites, %d seedOnly, %d seeded (goalOnly=%v)\n", len(sks), len(sites), len(seedOnly), len(seeded), goalOnly)
 		}
 		if len(seeded) > 0 {
 			extra = append(extra, seeded...)
